@@ -19,6 +19,8 @@ pub struct Exec {
     last_alloc_ok: bool,
     last_log_area: usize,
     last_intern_ptr: usize,
+    last_intern_len: usize,
+    last_alloc_len: usize,
 }
 
 pub fn err_code(e: ErrorCode) -> usize {
@@ -74,6 +76,8 @@ impl Exec {
             last_alloc_ok: false,
             last_log_area: 0,
             last_intern_ptr: 0,
+            last_intern_len: 0,
+            last_alloc_len: 0,
         }
     }
 
@@ -412,12 +416,16 @@ impl Exec {
                 let r = prov::shopify_function_intern_utf8_str(n);
                 let id = (r >> usize::BITS) as usize;
                 self.last_intern_ptr = r as usize;
+                self.last_intern_len = n;
                 Some(format!("id {}", id))
             }
             "interncopy" => {
                 let b = unhex(t.get(1)?)?;
                 if self.last_intern_ptr == 0 {
                     return Some("no-dst".to_string());
+                }
+                if b.len() > self.last_intern_len {
+                    return Some("copy-too-long".to_string());
                 }
                 unsafe { std::ptr::copy(b.as_ptr(), self.last_intern_ptr as *mut u8, b.len()) };
                 self.last_intern_ptr = 0;
@@ -577,6 +585,7 @@ impl Exec {
                 let st = (r >> usize::BITS) as usize;
                 self.last_alloc = r as usize;
                 self.last_alloc_ok = st == 0;
+                self.last_alloc_len = n;
                 format!(
                     "{} {}",
                     st,
@@ -591,6 +600,8 @@ impl Exec {
                 let b = unhex(t.get(2)?)?;
                 if self.last_alloc == 0 || !self.last_alloc_ok {
                     "no-dst".to_string()
+                } else if b.len() > self.last_alloc_len {
+                    "copy-too-long".to_string()
                 } else {
                     unsafe { std::ptr::copy(b.as_ptr(), self.last_alloc as *mut u8, b.len()) };
                     self.last_alloc = 0;
